@@ -19,7 +19,7 @@ def claimed():
 
 def main():
     args = [a for a in sys.argv[1:] if not a.startswith("--")]
-    allchecks = "--all-checks" in sys.argv
+    allchecks = "--own-check" not in sys.argv
     seeds = args or sorted(os.listdir(VERIF + "/seeded"))
     rc, out = sh("git status --porcelain", cwd="/repo")
     if out.strip():
